@@ -87,4 +87,3 @@ func deepSig(b *strings.Builder, v reflect.Value, depth int) {
 		b.WriteString(v.Kind().String())
 	}
 }
-
